@@ -2,6 +2,8 @@ pub mod c01;
 pub mod c02;
 pub mod c07;
 pub mod c08;
+pub mod c11;
+pub mod c20;
 
 use crate::driver::CheckSpec;
 
@@ -20,6 +22,8 @@ pub fn spec(id: &str) -> Option<CheckSpec> {
         "C02" => Some(c02::spec()),
         "C07" => Some(c07::spec()),
         "C08" => Some(c08::spec()),
+        "C11" => Some(c11::spec()),
+        "C20" => Some(c20::spec()),
         _ => None,
     }
 }
